@@ -83,6 +83,7 @@ fn main() {
     "C05" => vprop::c05::run(&cfg),
     "C06" => vprop::c06::run(&cfg),
     "C07" => vprop::c07::run(&cfg),
+    "C08" => vprop::c08::run(&cfg),
     "C09" => vprop::c09::run(&cfg),
     "C10" => vprop::c10::run(&cfg),
     "C12" => vprop::c12::run(&cfg),
